@@ -224,8 +224,9 @@ void DnsRequest::onUdpRecv(const void *data_ptr, size_t data_size, const SockAdd
     RECORD_SCOPE();
     util::Deserializer parser(data_ptr, data_size);
 
-    uint16_t req_id, flags;
-    parser >> req_id >> flags;
+    uint16_t req_id = 0, flags = 0;
+    if (!parser.fetch(req_id) || !parser.fetch(flags))
+        return; //! 长度不足，连id与flags都没有
 
     Request *req = findRequest(req_id);
     if (req == nullptr)
@@ -240,8 +241,10 @@ void DnsRequest::onUdpRecv(const void *data_ptr, size_t data_size, const SockAdd
     Result result;
 
     if (rcode == 0) {   //! 正常
-        uint16_t qd_count, an_count, ns_count, ar_count;
-        parser >> qd_count >> an_count >> ns_count >> ar_count;
+        uint16_t qd_count = 0, an_count = 0, ns_count = 0, ar_count = 0;
+        if (!parser.fetch(qd_count) || !parser.fetch(an_count) ||
+            !parser.fetch(ns_count) || !parser.fetch(ar_count))
+            return; //! 头部不完整，忽略该数据包
 
 #if 0
         LogTrace("id:%d, flags:%04x, qd_count:%d, an_count:%d, ns_count:%d, ar_count:%d",
@@ -253,23 +256,33 @@ void DnsRequest::onUdpRecv(const void *data_ptr, size_t data_size, const SockAdd
             std::string qd_domain;
             if (!FetchDomain(parser, qd_domain))
                 return;
-            uint16_t dns_type, dns_class;
-            parser >> dns_type >> dns_class;
+            uint16_t dns_type = 0, dns_class = 0;
+            if (!parser.fetch(dns_type) || !parser.fetch(dns_class))
+                return;
         }
 
         for (uint16_t i = 0; i < an_count; ++i) {
             std::string an_domain;
             if (!FetchDomain(parser, an_domain))
                 return;
-            uint16_t an_type, an_class, an_len;
-            uint32_t an_ttl;
-            parser >> an_type >> an_class >> an_ttl >> an_len;
+            uint16_t an_type = 0, an_class = 0, an_len = 0;
+            uint32_t an_ttl = 0;
+            if (!parser.fetch(an_type) || !parser.fetch(an_class) ||
+                !parser.fetch(an_ttl) || !parser.fetch(an_len))
+                return;
+
+            //! RDATA 必须完整地落在数据包内
+            if (!parser.checkSize(an_len))
+                return;
+            const size_t rdata_end = parser.pos() + an_len;
 
 #if 0
             LogTrace("type:%d, class:%d, ttl:%d, len:%d", an_type, an_class, an_ttl, an_len);
 #endif
             if (an_type == DNS_TYPE_A) {
-                uint32_t ip_value;
+                if (an_len != 4)
+                    return;
+                uint32_t ip_value = 0;
                 auto old_endian = parser.setEndian(util::Endian::kLittle);
                 parser >> ip_value;
                 parser.setEndian(old_endian);
@@ -280,13 +293,17 @@ void DnsRequest::onUdpRecv(const void *data_ptr, size_t data_size, const SockAdd
                 std::string domain;
                 if (!FetchDomain(parser, domain))
                     return;
+                if (parser.pos() > rdata_end)
+                    return; //! 域名超出了 RDATA 的范围
                 CNAME cname = { an_ttl, DomainName(domain) };
                 result.cname_vec.push_back(cname);
 
             } else {
                 LogNotice("unknow type:%d", an_type);
-                parser.skip(an_len);
             }
+
+            //! 无论何种类型，都从 RDATA 之后继续解析下一条记录
+            parser.skip(rdata_end - parser.pos());
         }
     } else {
         //! 出现异常
